@@ -613,6 +613,41 @@ def F2(ctx: Ctx) -> RuleResult:
             if not tested and stores:
                 r.fail('metadata:dup-test', f'on path [{guards_repr(norm_guards(pg))}] an annotation is stored without testing whether its key was already seen', fi.where)
                 dup_ok = False
+    all_children = (CH, Call(Ext('list'), (CH,)), Call(Ext('tuple'), (CH,)))
+    fresh_dicts = tuple(Call(Ext('dict'), (x,)) for x in all_children)
+    if not loops and raised and ok_raise:
+        # dict(children) plus a helper that reports a repeated key: the helper must see the keys of ALL children, record
+        # every key it has not seen, and report one that it has
+        if all(o.value in fresh_dicts for o in rets) and rets:
+            store_ok = True
+        for o in raised:
+            for g, pol in norm_guards(o.guards):
+                for x in walk(g):
+                    if isinstance(x, Call) and isinstance(x.func, FuncRef) and len(x.args) == 1:
+                        a = x.args[0]
+                        keys_of_all = isinstance(a, Comp) and len(a.gens) == 1 and a.gens[0][1] in all_children and not a.gens[0][2] \
+                            and a.elt == Sym('each:' + a.gens[0][0].strip('()').split(',')[0].strip())
+                        hf = ctx.ev.callee(x.func)
+                        if not keys_of_all or hf is None:
+                            continue
+                        kp = Sym('keys')
+                        for ho in ctx.ev.run(hf, {hf.params()[0]: kp}):
+                            for e in ho.effects:
+                                if not (isinstance(e, Loop) and e.iter == kp):
+                                    continue
+                                each = Sym(f'each:{e.target}')
+                                rec = rem = False
+                                for pg2, flow2, binds2, effs2 in e.paths:
+                                    seen_test = [(t, p) for t, p in norm_guards(pg2) if isinstance(t, Op) and t.op == 'in' and t.args[0] == each]
+                                    if seen_test and seen_test[0][1] and any(v == each and ho.value == Opaque(f'loop:{n_}') for n_, v in binds2):
+                                        rec = True
+                                    if seen_test and not seen_test[0][1] and any(isinstance(c2, Call) and call_name(c2) in ('add', 'append') and c2.args == (each,) and call_recv(c2) == seen_test[0][0].args[1] for c2 in effs2):
+                                        rem = True
+                                    if flow2 != 'end':
+                                        rec = rem = False
+                                        break
+                                if rec and rem:
+                                    dup_ok = True
     if raised and ok_raise and dup_ok and store_ok:
         r.ok('metadata: fresh dict, every key tested for repetition, HplSyntaxError on duplicates')
     else:
@@ -623,7 +658,7 @@ def F2(ctx: Ctx) -> RuleResult:
         if not store_ok:
             r.fail('metadata:fresh', 'annotations are not collected in a fresh dict created by this call', fi.where)
     for o in rets:
-        if not (isinstance(o.value, DictT) and not o.value.items):
+        if not ((isinstance(o.value, DictT) and not o.value.items) or o.value in fresh_dicts):
             r.fail('metadata:return', f'returns {str(o.value)[:60]}, not the dict built by this call', fi.where)
     for name, k in (('metadata_id', 'id'), ('metadata_title', 'title'), ('metadata_desc', 'description')):
         fi, outs, _ = callback_outcomes(ctx, name)
